@@ -80,7 +80,11 @@ ExportSeq == Len(steps) = MaxSteps => PrintT("SCN " \o ToJson([kind |-> kind, st
 (* ---------------------------------------------------------------------- *)
 StepsOf(h) == LET s == SelectSeq(h, LAMBDA e : e.ev = "cfgstep") IN [i \in 1..Len(s) |-> [param |-> s[i].param, form |-> s[i].form, val |-> s[i].val]]
 
+\* a pool size <= 0 means one worker: every task runs, exactly max(size, 1) of them at a time
+PoolSizeOK(e) == LET eff == IF e.size <= 0 THEN 1 ELSE e.size IN ~e.hung /\ e.ran = e.tasks /\ e.hwm = eff
+
 C19_Failing(c, h) ==
+  IF c.kind = "pool" THEN (IF \A i \in 1..Len(h) : h[i].ev = "poolsize" => PoolSizeOK(h[i]) THEN {} ELSE {"poolSizeDefault"}) ELSE
   LET exp   == Expected(StepsOf(h))
       probes == SelectSeq(h, LAMBDA e : e.ev = "probe")
       p     == probes[1]
